@@ -18,7 +18,7 @@ case("c01-push-outside-txn", "C01", "mutant", [(H + "start_task.py", """        
                         task_type=task_model.implementing_class,
                     )
                 )
-""", """                pass
+                # Recorded inside the transaction""", """                pass
             self.queue.push(
                 RunTask(
                     execution_type=message.execution_type,
@@ -28,7 +28,8 @@ case("c01-push-outside-txn", "C01", "mutant", [(H + "start_task.py", """        
                     task_type=task_model.implementing_class,
                 )
             )
-""")], "C01.R1")
+            if True:
+                # Recorded inside the transaction""")], "C01.R1")
 case("c01-mark-in-claim-txn", "C01", "mutant", [(H + "start_stage/handler.py", """                txn.store_stage(stage, expected_phase=claim_expected_phase)
 """, """                txn.store_stage(stage, expected_phase=claim_expected_phase)
                 txn.mark_message_processed(message_id=message.message_id, handler_type="StartStage", execution_id=message.execution_id)
@@ -679,9 +680,9 @@ case("c12-cancelstage-task-event-dropped", "C12", "mutant", [("src/stabilize/han
                         )
 """, """                    pass
 """)], "C12.R1")
-case("c12-success-recorded-as-canceled", "C12", "mutant", [("src/stabilize/handlers/complete_workflow.py", """                if status == WorkflowStatus.SUCCEEDED:
-                    self.event_recorder.record_workflow_completed(""", """                if status == WorkflowStatus.SUCCEEDED:
-                    self.event_recorder.record_workflow_canceled(""")], "C12.R1")
+case("c12-success-recorded-as-canceled", "C12", "mutant", [("src/stabilize/handlers/complete_workflow.py", """                    if status == WorkflowStatus.SUCCEEDED:
+                        self.event_recorder.record_workflow_completed(""", """                    if status == WorkflowStatus.SUCCEEDED:
+                        self.event_recorder.record_workflow_canceled(""")], "C12.R1")
 case("c12-apply-case-wrong-status", "C12", "mutant", [("src/stabilize/events/replay.py", """            state.end_time = event.timestamp
             state.status = "CANCELED\"""", """            state.end_time = event.timestamp
             state.status = "TERMINAL\"""")], "C12.R1")
@@ -1221,18 +1222,10 @@ case("c16-jump-keys-stay-inherited", "C16", "mutant", [(H + "jump_to_stage/handl
 case("c10-sweeps-buffered-workflows", "C10", "mutant", [(REC_, """            statuses={WorkflowStatus.RUNNING, WorkflowStatus.NOT_STARTED},""", """            statuses={WorkflowStatus.RUNNING, WorkflowStatus.NOT_STARTED, WorkflowStatus.BUFFERED},""")], "C10.R8")
 
 case("c20-membership-valueerror-dropped", "C20", "mutant", [(EX_, """            except (TypeError, ValueError) as e:""", """            except TypeError as e:""")], "C20.R3")
-case("c13-refactor-try-else-baseexception", "C13", "refactor", [("src/stabilize/persistence/sqlite/store/store.py", """        except Exception:
-            conn.rollback()
-            # Restore in-memory versions to match rolled-back database state
-            txn.rollback_versions()
-            abort_store_transaction()
+case("c13-refactor-try-else-baseexception", "C13", "refactor", [("src/stabilize/persistence/sqlite/store/store.py", """            abort_store_transaction()
             raise
         commit_store_transaction()
-""", """        except BaseException:
-            conn.rollback()
-            # Restore in-memory versions to match rolled-back database state
-            txn.rollback_versions()
-            abort_store_transaction()
+""", """            abort_store_transaction()
             raise
         else:
             commit_store_transaction()
